@@ -58,18 +58,32 @@ deriving DecidableEq, Repr, Inhabited
 /-- some stage of the content pipeline is not the identity -/
 def Cfg.hasCodec (c : Cfg) : Bool := c.compression != [] || c.encryption != [] || c.signature != []
 
-/-- Decoding the *empty* stream fails: for gzip and bzip2 (and their parallel variants), for
-    every encryption format and for every signature format (lz4, zstandard and brotli decode the
-    empty stream to the empty content).  An assumption about the codecs, validated by the
-    correspondence on every configuration. -/
-def Cfg.emptyDecodeFails (c : Cfg) : Bool :=
-  c.compression == n!"gzip" || c.compression == n!"parallelgzip" || c.compression == n!"bzip2" ||
-  c.compression == n!"parallelbzip2" || c.encryption != [] || c.signature != []
+/-- What reading a record *without content* (a file that was created but never written) does
+    under a pipeline.  The read side runs decrypt → decompress → verify on the empty stream;
+    the first stage that rejects it decides: age rejects it with a proper error; OpenPGP
+    decryption, the gzip readers and OpenPGP signature verification fail with exactly `io.EOF`,
+    which a handle's `Read` takes for the end of the file (so `Open`+`Read` returns empty
+    content) while `Restore`/`Fetch` return it as an error; bzip2 fails with another error;
+    minisign rejects the missing signature; lz4 reads the empty stream but its `Close` reports
+    `io.EOF`.  (Per-format table, validated on every configuration by the round-trip matrix.) -/
+inductive EmptyRead | ok | eofOnly | fails
+deriving DecidableEq, Repr
 
-/-- Restoring an empty record through the archive interface fails: as above, and additionally
-    under lz4, whose reader's `Close` reports `EOF` for the empty stream (a handle's `Read`
-    takes that for the end of the file, `Restore`/`Fetch` return it as an error) -/
-def Cfg.emptyRestoreFails (c : Cfg) : Bool := c.emptyDecodeFails || c.compression == n!"lz4"
+def Cfg.emptyRead (c : Cfg) : EmptyRead :=
+  if c.encryption == n!"age" then .fails
+  else if c.encryption == n!"pgp" then .eofOnly
+  else if c.signature == n!"pgp" then .eofOnly
+  else if c.compression == n!"gzip" || c.compression == n!"parallelgzip" then .eofOnly
+  else if c.compression == n!"bzip2" || c.compression == n!"parallelbzip2" then .fails
+  else if c.signature == n!"minisign" then .fails
+  else if c.compression == n!"lz4" then .eofOnly
+  else .ok
+
+/-- reading such a record through a handle returns an error -/
+def Cfg.emptyDecodeFails (c : Cfg) : Bool := c.emptyRead == .fails
+
+/-- restoring it through the archive interface returns an error -/
+def Cfg.emptyRestoreFails (c : Cfg) : Bool := c.emptyRead != .ok
 
 def lookupTable (tab : List (Name × Name)) (k : Name) : Option Name :=
   (tab.find? (fun kv => kv.1 == k)).map (·.2)
